@@ -127,6 +127,32 @@ pub fn oracle(scn: &SenderScn, ctx: &Ctx, trace: &SenderTrace) {
             violate(ctx, "C08/close-session-flag", "missing", format!("the close-session packet {} lacks the A flag", p.idx));
         }
     }
+    // "the single packet sent after the object was removed": an object that may be stopped (already
+    // transferred once, or immediate stop allowed) emits at most one more packet, flagged
+    for (i, o) in scn.objects.iter().enumerate() {
+        let (toi, r) = match (trace.obj_toi[i], removal_seq(trace, i)) {
+            (Some(t), Some(r)) => (t, r),
+            _ => continue,
+        };
+        let completed = tr.list.iter().filter(|t| t.obj == i && t.stop_seq.map(|s| s < r).unwrap_or(false)).count();
+        if !(o.immediate_stop == Some(true) || completed > 0) {
+            continue;
+        }
+        let after: Vec<&Emitted> = trace.pkts.iter().filter(|p| p.dec.toi == toi && p.seq > r).collect();
+        if after.len() > 1 {
+            violate(
+                ctx,
+                "C08/packets-after-removal",
+                "-",
+                format!("toi={}: {} packets of the object after remove_object ({} transfers completed before), expected the single close-object packet", toi, after.len(), completed),
+            );
+        }
+        if let Some(p) = after.first() {
+            if !p.dec.close_object {
+                violate(ctx, "C08/packet-after-removal-without-close-flag", "-", format!("toi={}: packet {} sent after remove_object lacks the close-object flag", toi, p.idx));
+            }
+        }
+    }
     for t in &tr.list {
         let o = &scn.objects[t.obj];
         let oti = o.eff_oti(&scn.spec.oti);
